@@ -56,7 +56,7 @@ func checkC09(c *Ctx) {
 	c.Floor("C09.R8", 4)
 	a.eccentricity()
 	c.Floor("C09.R7", 4)
-	c.Floor("C09.R6", 5)
+	c.Floor("C09.R6", 1)
 	c.Floor("C09.R1", 60)
 	c.Floor("C09.R2", 1)
 	c.Floor("C09.R3", 12)
@@ -73,86 +73,95 @@ type goEntry struct {
 	pos  token.Pos
 }
 
-// goMapTables finds package-level `var X = map[string]T{…}` literals.
+// goMapTables reads the package-level tables of package proj — variables whose type is a map with
+// string keys — as the interpreter finds them after the package's initialisers and init functions
+// have run: whether a table is written as a literal, filled in init or built by a helper is
+// immaterial.  Struct values contribute their fields by name, a bare number or string the entry "".
 func (a *c09) goMapTables() map[string]map[string]*goEntry {
 	out := map[string]map[string]*goEntry{}
-	for _, f := range a.p.Syntax {
-		for _, d := range f.Decls {
-			gd, ok := d.(*ast.GenDecl)
-			if !ok || gd.Tok != token.VAR {
+	it := &oInterp{p: a.c.P, maxDepth: 48, maxLoop: 8192, symbolic: true}
+	num := func(v oval) (float64, bool) {
+		switch x := v.(type) {
+		case oInt:
+			return float64(x), true
+		case oSym:
+			if c, ok := symConst(x.p); ok {
+				f, _ := c.Float64()
+				return f, true
+			}
+		}
+		return 0, false
+	}
+	var fill func(e *goEntry, name string, v oval)
+	fill = func(e *goEntry, name string, v oval) {
+		if iv, ok := v.(oIface); ok {
+			v = iv.dyn
+		}
+		if p, ok := v.(oPtr); ok && p.s != nil {
+			v = p.s
+		}
+		if f, ok := num(v); ok {
+			e.nums[name] = f
+			return
+		}
+		switch x := v.(type) {
+		case *oStruct:
+			if x == nil || name != "" {
+				return
+			}
+			for _, fn := range x.order {
+				fill(e, fn, x.fields[fn])
+			}
+		case oSlice:
+			if b, ok := x.typ.Underlying().(*types.Basic); ok && b.Info()&types.IsString != 0 {
+				if str, ok := strOf(x); ok {
+					e.strs[name] = str
+				}
+				return
+			}
+			for i := 0; i < x.length(); i++ {
+				el := x.at(i)
+				if f, ok := num(el); ok {
+					e.arrs[name] = append(e.arrs[name], f)
+				} else if str, ok := strOf(el); ok {
+					e.sarr[name] = append(e.sarr[name], str)
+				}
+			}
+		}
+	}
+	scope := a.p.Types.Scope()
+	for _, n := range scope.Names() {
+		v, ok := scope.Lookup(n).(*types.Var)
+		if !ok {
+			continue
+		}
+		mt, ok := v.Type().Underlying().(*types.Map)
+		if !ok {
+			continue
+		}
+		if b, ok := mt.Key().Underlying().(*types.Basic); !ok || b.Kind() != types.String {
+			continue
+		}
+		cell := it.global(v)
+		if cell == nil {
+			continue
+		}
+		mp, ok := (*cell).(oMap)
+		if !ok || mp.keys == nil {
+			continue
+		}
+		tbl := map[string]*goEntry{}
+		for i, k := range *mp.keys {
+			key, ok := strOf(k)
+			if !ok {
 				continue
 			}
-			for _, sp := range gd.Specs {
-				vs := sp.(*ast.ValueSpec)
-				if len(vs.Names) != 1 || len(vs.Values) != 1 {
-					continue
-				}
-				lit, ok := unparen(vs.Values[0]).(*ast.CompositeLit)
-				if !ok {
-					continue
-				}
-				mt, ok := a.info.TypeOf(lit).Underlying().(*types.Map)
-				if !ok {
-					continue
-				}
-				if b, ok := mt.Key().Underlying().(*types.Basic); !ok || b.Kind() != types.String {
-					continue
-				}
-				tbl := map[string]*goEntry{}
-				okTable := true
-				for _, el := range lit.Elts {
-					kv, ok := el.(*ast.KeyValueExpr)
-					if !ok {
-						okTable = false
-						break
-					}
-					key, ok := constString(a.info, kv.Key)
-					if !ok {
-						okTable = false
-						break
-					}
-					e := &goEntry{nums: map[string]float64{}, strs: map[string]string{}, arrs: map[string][]float64{}, sarr: map[string][]string{}, pos: kv.Pos()}
-					if v := constOf(a.info, kv.Value); v != nil {
-						if f, ok := constFloat(v); ok {
-							e.nums[""] = f
-						} else if v.Kind() == constant.String {
-							e.strs[""] = constant.StringVal(v)
-						}
-					} else if sl, ok := unparen(kv.Value).(*ast.CompositeLit); ok {
-						st, _ := a.info.TypeOf(sl).Underlying().(*types.Struct)
-						for i, fe := range sl.Elts {
-							var name string
-							var val ast.Expr
-							if fkv, ok := fe.(*ast.KeyValueExpr); ok {
-								name, val = src(fkv.Key), fkv.Value
-							} else if st != nil && i < st.NumFields() {
-								name, val = st.Field(i).Name(), fe
-							}
-							if v := constOf(a.info, val); v != nil {
-								if f, ok := constFloat(v); ok {
-									e.nums[name] = f
-								} else if v.Kind() == constant.String {
-									e.strs[name] = constant.StringVal(v)
-								}
-							} else if al, ok := unparen(val).(*ast.CompositeLit); ok {
-								for _, ae := range al.Elts {
-									if v := constOf(a.info, ae); v != nil {
-										if f, ok := constFloat(v); ok {
-											e.arrs[name] = append(e.arrs[name], f)
-										} else if v.Kind() == constant.String {
-											e.sarr[name] = append(e.sarr[name], constant.StringVal(v))
-										}
-									}
-								}
-							}
-						}
-					}
-					tbl[key] = e
-				}
-				if okTable && len(tbl) > 0 {
-					out[vs.Names[0].Name] = tbl
-				}
-			}
+			e := &goEntry{nums: map[string]float64{}, strs: map[string]string{}, arrs: map[string][]float64{}, sarr: map[string][]string{}, pos: v.Pos()}
+			fill(e, "", (*mp.vals)[i])
+			tbl[key] = e
+		}
+		if len(tbl) > 0 {
+			out[n] = tbl
 		}
 	}
 	return out
@@ -219,6 +228,19 @@ func (a *c09) tables() {
 				continue
 			}
 			var diffs []string
+			// a bare number or string stands for the entry's only field
+			if len(je) == 1 && len(ge.nums)+len(ge.strs) == 1 {
+				for f := range je {
+					if v, ok := ge.nums[""]; ok {
+						delete(ge.nums, "")
+						ge.nums[f] = v
+					}
+					if v, ok := ge.strs[""]; ok {
+						delete(ge.strs, "")
+						ge.strs[f] = v
+					}
+				}
+			}
 			for f, jv := range je {
 				gname := ""
 				// match field names case/underscore-insensitively
